@@ -112,24 +112,40 @@ theorem sort_stable {α : Type} (l l' : List (Key × α)) (hs : l'.Sublist l)
 `detectList`/`detectSel` (Model/Guards.lean) are defined by well-founded recursion on
 `(limit + 1 - path.length, size of the selection)`: that Lean accepts the definition *is* the proof that
 `detect_fragment_cycles` terminates on every document, cyclic or not, because of the `RecursionGuard`
-limit alone (the `seen` set is an optimisation, not what bounds the recursion). -/
+limit alone (the `seen` set is an optimisation, not what bounds the recursion).  Termination is not a
+bounded stack, though: the name stack bounds the chain of fragments, not the fields and inline
+fragments each of them nests its spread in, so the call depth is the product of two individually
+bounded quantities (the stack overflow repaired by 3e87d32).  The call depth is therefore a ghost of
+its own, `DState.dhigh`, bounded by the `DepthCounter` the repaired code threads through. -/
 
 /-- the recursion stack never grows beyond limit + 1 names -/
-theorem fragment_cycle_stack_bound (doc : Doc) (limit root : Nat) (body : List Sel) (hl : 1 ≤ limit) :
-    (fragmentCycle doc limit root body).2.high ≤ limit + 1 :=
-  (bound_all doc limit).1 [root] _ body (by simpa using hl) (by simp)
+theorem fragment_cycle_stack_bound (doc : Doc) (limit dlimit root : Nat) (body : List Sel) (hl : 1 ≤ limit) :
+    (fragmentCycle doc limit dlimit root body).2.high ≤ limit + 1 :=
+  ((bound_all doc limit dlimit).1 [root] 0 _ body (by simpa using hl) (Nat.zero_le _)
+    ⟨by simp, by simp⟩).1
+
+/-- the call depth of `detect_fragment_cycles` never exceeds dlimit + 1 frames, for every document:
+    whatever the fragment chain and however deep each fragment nests its spreads -/
+theorem fragment_cycle_depth_bound (doc : Doc) (limit dlimit root : Nat) (body : List Sel) (hl : 1 ≤ limit) :
+    (fragmentCycle doc limit dlimit root body).2.dhigh ≤ dlimit + 1 :=
+  ((bound_all doc limit dlimit).1 [root] 0 _ body (by simpa using hl) (Nat.zero_le _)
+    ⟨by simp, by simp⟩).2
 
 /-- a reported cycle is a real one: `RecursiveFragmentDefinition` is only reported for a fragment that
     reaches itself through a non-empty chain of spreads -/
-theorem fragment_cycle_sound (doc : Doc) (limit root : Nat) (body : List Sel)
+theorem fragment_cycle_sound (doc : Doc) (limit dlimit root : Nat) (body : List Sel)
     (hdef : lookup doc root = some body)
-    (h : (fragmentCycle doc limit root body).1 = .recursed) : Reach doc root root :=
-  (sound_all doc limit).1 [root] _ body root root rfl (.refl root) (fun _ hn => ⟨body, hdef, hn⟩) h
+    (h : (fragmentCycle doc limit dlimit root body).1 = .recursed) : Reach doc root root :=
+  (sound_all doc limit dlimit).1 [root] 0 _ body root root rfl (.refl root) (fun _ hn => ⟨body, hdef, hn⟩) h
 
 -- Non-vacuity
-#guard (fragmentCycle [(0, [.spread 1]), (1, [.nested [.spread 0]])] 100 0 [.spread 1]).1 == .recursed
-#guard (fragmentCycle [(0, [.spread 1]), (1, [.nested [.spread 1]])] 100 0 [.spread 1]).1 == .ok
-#guard (fragmentCycle [(0, [.spread 1]), (1, [.spread 2]), (2, [])] 1 0 [.spread 1]).1 == .limit
+#guard (fragmentCycle [(0, [.spread 1]), (1, [.nested [.spread 0]])] 100 500 0 [.spread 1]).1 == .recursed
+#guard (fragmentCycle [(0, [.spread 1]), (1, [.nested [.spread 1]])] 100 500 0 [.spread 1]).1 == .ok
+#guard (fragmentCycle [(0, [.spread 1]), (1, [.spread 2]), (2, [])] 1 500 0 [.spread 1]).1 == .limit
+-- the product of a short chain and shallow nesting reaches the depth limit (4 frames > 3)
+#guard (fragmentCycle [(0, [.nested [.spread 1]]), (1, [.nested [.spread 2]]), (2, [])] 100 3 0 [.nested [.spread 1]]).1 == .limit
+#guard (fragmentCycle [(0, [.nested [.spread 1]]), (1, [.nested [.spread 2]]), (2, [])] 100 4 0 [.nested [.spread 1]]).1 == .ok
+#guard (fragmentCycle [(0, [.nested [.spread 1]]), (1, [.nested [.spread 2]]), (2, [])] 100 4 0 [.nested [.spread 1]]).2.dhigh == 4
 example : (walk ⟨0, 0, 2⟩ (.node (.node (.node .leaf .leaf) .leaf) .leaf)).2 = true := by decide
 example : (walk ⟨0, 0, 3⟩ (.node (.node (.node .leaf .leaf) .leaf) .leaf)).2 = false := by decide
 -- (a test, evaluated by the compiler: `mergeSort` is defined by well-founded recursion)
